@@ -257,9 +257,9 @@ def ob_complementary_accepts_exact(d):
 def obligations(tier):
     T = tier == "thorough"
     obs = []
-    dd = [1, 2, 3] + ([4] if T else [])
+    dd = [1, 2, 3] + ([4, 5] if T else [])
     for din, dout in itertools.product(dd, dd):
-        for r in ([1, 2, 3] if T else [1, 2]):
+        for r in ([1, 2, 3, 4] if T else [1, 2]):
             for form in ["flat", "nested_col", "pairs"]:
                 obs.append(ob_adjoint(din, dout, r, form))
                 obs.append(ob_double_dual(din, dout, r, form))
